@@ -145,7 +145,7 @@ func addAnchoringCriteriaToAlternatives(
 				value := r.Coefficients.Fetch(c.Id)
 				criterionValue += value * c.Weight
 			}
-			newValue := bounding.scaling.ValuesRange.Min + diff + diff*criterionValue
+			newValue := pointOfRange(&bounding.scaling.ValuesRange, diff, criterionValue)
 			newValue = bounding.bounding.BoundValue(newValue)
 			alt = *alt.WithCriterion(anchoringCriterion.Id, newValue)
 			anchoringCriterion.AlternativesValues[alt.Id] = newValue
@@ -165,6 +165,16 @@ func addAnchoringCriteriaToAlternatives(
 		newAlternatives[i] = alt
 	}
 	return newAlternatives
+}
+
+// mid-range + half-range * ratio, measured from the end of the range the ratio points to: the ratios 1 and -1 give the
+// ends of the range exactly and a ratio between them never leaves it (min + half + half*1 missed the max of [0.3, 1] by
+// one ulp and left [-0.1, 0.3])
+func pointOfRange(valuesRange *utils.ValueRange, halfRange, ratio float64) float64 {
+	if ratio >= 0 {
+		return valuesRange.Max - halfRange*(1-ratio)
+	}
+	return valuesRange.Min + halfRange*(1+ratio)
 }
 
 const _minAllowedWeight = 0.01
